@@ -53,6 +53,7 @@ impl Prop for C01 {
             owns: |v| matches!(v.rule, Rule::ReadLen | Rule::ReadData | Rule::Frame | Rule::MappingKind),
             nontrivial: |r, _| r.stats.ops_done >= 3 && (r.stats.reads_of_modified > 0 || r.stats.reads_of_initial_nonzero > 0),
             tweak: no_tweak,
+            case_tags: no_tags,
             extra_classes: no_classes,
             max_sched: 200,
             max_extra: 0,
